@@ -210,6 +210,9 @@ type m1 struct {
 	choices   []int
 	choiceIx  int
 	ambiguous []int // number of candidates at each ambiguous Unsubscribe
+	ambOp     []int      // top-level operation during which each of them happens
+	ambCand   [][]string // invocation-name prefixes ("E00/f1#7:") of the candidates, in registry order
+	curOp     int
 	obs       *c01Obs
 	budget    int
 	nextUID   int
@@ -254,6 +257,13 @@ func (m *m1) apply(op C01Op) {
 			}
 			m.choiceIx++
 			m.ambiguous = append(m.ambiguous, len(idx))
+			m.ambOp = append(m.ambOp, m.curOp)
+			var cand []string
+			for _, j := range idx {
+				r := m.regs[op.Type][j]
+				cand = append(cand, strings.SplitAfter(invName(op.Type, r.fn, r.uid, 0), ":")[0])
+			}
+			m.ambCand = append(m.ambCand, cand)
 		}
 		i := idx[pick]
 		l := m.regs[op.Type]
@@ -323,9 +333,15 @@ func (sc *C01Scenario) scriptMap() map[[3]int][]C01Op {
 
 // runModel returns the expected observation per top-level operation.
 func (sc *C01Scenario) runModel(choices []int) ([]*c01Obs, []int) {
+	all, m := sc.runModelFull(choices)
+	return all, m.ambiguous
+}
+
+func (sc *C01Scenario) runModelFull(choices []int) ([]*c01Obs, *m1) {
 	m := &m1{regs: map[int][]*m1Reg{}, scripts: sc.scriptMap(), calls: map[[2]int]int{}, choices: choices, budget: 5000}
 	var all []*c01Obs
-	for _, op := range sc.Ops {
+	for i, op := range sc.Ops {
+		m.curOp = i
 		m.obs = newObs()
 		m.apply(op)
 		for _, ti := range sc.Pool {
@@ -334,7 +350,7 @@ func (sc *C01Scenario) runModel(choices []int) ([]*c01Obs, []int) {
 		}
 		all = append(all, m.obs)
 	}
-	return all, m.ambiguous
+	return all, m
 }
 
 func c01Compare(i int, op C01Op, want, got *c01Obs) string {
@@ -485,52 +501,73 @@ func (sc *C01Scenario) Execute(t *testing.T) *core.Outcome {
 	// compare with the model; ambiguous Unsubscribes (several registrations of the function) try every choice
 	want, amb := sc.runModel(nil)
 	firstMsg := ""
-	match := func(want []*c01Obs) string {
+	match := func(want []*c01Obs) (int, string) {
 		for i := range sc.Ops {
 			if i >= len(actual) {
-				return fmt.Sprintf("run stopped after %d of %d operations", len(actual), len(sc.Ops))
+				return i, fmt.Sprintf("run stopped after %d of %d operations", len(actual), len(sc.Ops))
 			}
 			if msg := c01Compare(i, sc.Ops[i], want[i], actual[i]); msg != "" {
-				return msg
+				return i, msg
 			}
 		}
-		return ""
+		return -1, ""
 	}
-	firstMsg = match(want)
+	_, firstMsg = match(want)
 	if firstMsg != "" && len(amb) > 0 {
-		// Enumerate choice vectors. The number of candidates at the i-th ambiguous Unsubscribe depends on the
-		// earlier choices (and on which re-entrant scripts ran), so a fixed radix a little above the largest
-		// number seen in the reference run is used for every position; the model takes the value modulo the
-		// actual number of candidates. Bounded: only reached after a mismatch.
-		radix := 2
-		for _, n := range amb {
-			if n+2 > radix {
-				radix = n + 2
+		// The property does not say WHICH registration of a function an Unsubscribe removes. Search the
+		// choices depth first: a prefix of choices is abandoned as soon as the model disagrees with the run
+		// before the operation that holds the next free choice; candidates that the run never invokes again
+		// are tried first (so a legal implementation is matched along the first path whatever its rule is -
+		// first match, last match, ...). Bounded by model runs; only reached after a mismatch.
+		seenAfter := func(prefix string, op int) bool {
+			for j := op; j < len(actual); j++ {
+				for _, n := range actual[j].Sync {
+					if strings.HasPrefix(n, prefix) {
+						return true
+					}
+				}
+				for n := range actual[j].Async {
+					if strings.HasPrefix(n, prefix) {
+						return true
+					}
+				}
 			}
+			return false
 		}
-		if radix > 8 {
-			radix = 8
-		}
-		positions := len(amb) + 2
-		total := 1
-		for i := 0; i < positions && total <= 60000; i++ {
-			total *= radix
-		}
-		if total > 60000 {
-			total = 60000
-		}
-		for v := 1; v < total && firstMsg != ""; v++ {
-			choices := make([]int, positions)
-			x := v
-			for i := range choices {
-				choices[i] = x % radix
-				x /= radix
+		runs := 0
+		var dfs func(prefix []int) bool
+		dfs = func(prefix []int) bool {
+			if runs >= 60000 {
+				return false
 			}
-			w2, _ := sc.runModel(choices)
-			if match(w2) == "" {
-				firstMsg = ""
-				out.Probe("ambiguous-unsubscribe-resolved-by-other-choice")
+			runs++
+			w, m := sc.runModelFull(prefix)
+			mis, _ := match(w)
+			if mis < 0 {
+				return true
 			}
+			k := len(prefix)
+			if k >= len(m.ambiguous) || mis < m.ambOp[k] {
+				return false // nothing left to vary, or the disagreement precedes the next free choice
+			}
+			var first, later []int
+			for c, name := range m.ambCand[k] {
+				if seenAfter(name, m.ambOp[k]+1) {
+					later = append(later, c)
+				} else {
+					first = append(first, c)
+				}
+			}
+			for _, c := range append(first, later...) {
+				if dfs(append(append([]int{}, prefix...), c)) {
+					return true
+				}
+			}
+			return false
+		}
+		if dfs(nil) {
+			firstMsg = ""
+			out.Probe("ambiguous-unsubscribe-resolved-by-other-choice")
 		}
 	}
 	if firstMsg != "" {
